@@ -32,17 +32,20 @@ JOB_TIMEOUT = {"quick": 280, "thorough": 1500}
 TASKS_PER_CHILD = 40
 MARCH = "arm"
 PTR_BITS = 32
+IR_STEPS = 120            # quick-tier unwinding bound (IR instructions of the source execution); small enough that the depth-first
+                          # exploration is exhaustive below it instead of spending its path budget near the bound
 BUF_ADDR = 0x6000          # caller buffers behind pointer arguments live here in linear memory (free: globals start at 1000)
 
 BOUNDS = {
     "quick": {"programs": "every program of corpus/cprogs.py and 23 extra programs (props/C23.py EXTRA_PROGS: narrow / unsigned types, loops with "
                           "break / continue / early return, switch in loop) unoptimised and after optimize level 2; "
-                          "IR CFG skeletons: all 44 with 2 and 3 blocks, 60 sampled with 4 blocks",
+                          "IR CFG skeletons: all 44 with 2 and 3 blocks, a fixed (seed-independent) sample of 60 with 4 blocks",
               "symbolic": "all arguments (full range of the IR type), initial contents of globals (<= 32 bytes), 16 bytes behind each "
                           "pointer argument, 4 external call results",
-              "unwinding": "300 IR instructions / 3000 wasm steps per execution, call depth 3 (longer paths are cut and counted)"},
-    "thorough": {"programs": "every C program unoptimised and at levels 1 and 2; all 2- and 3-block skeletons, 600 sampled 4-block skeletons",
-                 "unwinding": "same"}}
+              "unwinding": "120 IR instructions / 1200 wasm steps per execution (small enough that the depth-first exploration is exhaustive "
+                           "below the bound), call depth 3, at most 400 paths per program (longer / further paths are cut and counted)"},
+    "thorough": {"programs": "every C program unoptimised and at levels 1 and 2; ALL 2-, 3- and 4-block skeletons (2216)",
+                 "unwinding": "200 IR instructions / 2000 wasm steps"}}
 OUTSIDE = ["floating point (no symbolic float domain)", "modules that ppci2wasm does not compile (any compiler exception): counted, not claimed",
            "function pointers / call_indirect (front-end output of the corpus has none)",
            "running the output in ppci's own engine or wasmtime: the reference is the specification (ref/wasmsem.py)",
@@ -145,7 +148,7 @@ def sval(t):
 
 
 class Ir2WasmHarness(Harness):
-    max_paths = 150
+    max_paths = 400
     max_decisions = 500
     cut_allowance = 10 ** 6
     W = 80
@@ -204,7 +207,8 @@ class Ir2WasmHarness(Harness):
             layout[name] = BUF_ADDR + 32 * k
         # -- reference: the IR
         try:
-            sem = irsem.IrSem(m1, ptr_bits=PTR_BITS, ext_results=i["ext"], max_steps=300, init_globals=i["glob"],
+            steps = IR_STEPS if os.environ.get("VERIF_TIER_ACTIVE", "quick") == "quick" else 200
+            sem = irsem.IrSem(m1, ptr_bits=PTR_BITS, ext_results=i["ext"], max_steps=steps, init_globals=i["glob"],
                               buffers=i["bufs"], layout=layout)
             argv = []
             for (kind, v), p in zip(i["args"], f.arguments):
@@ -244,7 +248,7 @@ class Ir2WasmHarness(Harness):
                 host[f"{d.modname}.{d.name}"] = fn
         out = dict(trap=None, ret=None, mem={}, trace=[])
         try:
-            ws = wasmsem.WasmSem(wm, host=host, max_steps=3000, max_depth=4)
+            ws = wasmsem.WasmSem(wm, host=host, max_steps=10 * steps, max_depth=4)
             for v in m1.variables:
                 if v.name in i["glob"]:
                     for j, b in enumerate(i["glob"][v.name]):
@@ -268,9 +272,9 @@ class Ir2WasmHarness(Harness):
             except wasmsem.Trap as e:
                 out["trap"] = str(e)
             except wasmsem.StepLimit as e:
-                # the source execution ended within its bound (300 IR instructions); 10 wasm steps per IR instruction
+                # the source execution ended within its bound (IR_STEPS); 10 wasm steps per IR instruction
                 # are far beyond what the translation needs: reported as non-termination, not cut
-                out["trap"] = "does not terminate within 3000 steps"
+                out["trap"] = "does not terminate within 10 wasm steps per IR instruction of the bound"
             for name in o1["mem"]:
                 out["mem"][name] = [sval(ws.peek(layout[name] + j)) for j in range(len(o1["mem"][name]))]
             out["trace"] = [(n.split(".", 1)[1], [sval(a) for a in args]) for n, args in ws.trace]
@@ -356,10 +360,11 @@ def jobs(tier, seed):
         js.append(("mk_ir2wasm", dict(prog=p, opt="2")))
         if tier != "quick":
             js.append(("mk_ir2wasm", dict(prog=p, opt="1")))
+    # the skeleton family does not depend on the run seed: quick takes a FIXED sample of the 4-block skeletons,
+    # thorough enumerates all 2172 of them
     import random
-    rnd = random.Random(seed)
     n4 = list(irprogs.all_names(4))
-    skel = list(irprogs.all_names(2)) + list(irprogs.all_names(3)) + rnd.sample(n4, 600)[:60 if tier == "quick" else 600]
+    skel = list(irprogs.all_names(2)) + list(irprogs.all_names(3)) + (random.Random(0).sample(n4, 600)[:60] if tier == "quick" else n4)
     for nm in skel:
         js.append(("mk_ir2wasm", dict(prog=nm, opt=None)))
     only = os.environ.get("VERIF_ONLY")
